@@ -132,7 +132,7 @@ class SigmaValidator:
         """
         issues: list[SigmaValidationIssue] = []
         exclusions = self.exclusions[rule.id]
-        for validator in self.validators:
+        for validator in self._ordered_validators():
             if validator.__class__ not in exclusions:  # Skip if validator is excluded for this rule
                 issues.extend(validator.validate(rule))
         return issues
@@ -144,7 +144,12 @@ class SigmaValidator:
         :return: a list of all issues emitted by rule validators on finalization.
         :rtype: list[SigmaValidationIssue]
         """
-        return [issue for validator in self.validators for issue in validator.finalize()]
+        return [issue for validator in self._ordered_validators() for issue in validator.finalize()]
+
+    def _ordered_validators(self) -> list[SigmaRuleValidator]:
+        """The validators in a defined order: iterating the set directly would make the order of the
+        reported issues depend on the hash seed of the interpreter."""
+        return sorted(self.validators, key=lambda validator: validator.__class__.__name__)
 
     def validate_rules(self, rules: Iterator[SigmaRule]) -> list[SigmaValidationIssue]:
         """
